@@ -5,24 +5,27 @@ from .. import vlib
 TRUSTED = [
     "Lean 4.33 kernel; axioms per theorem listed under coverage.axioms (subset of propext, Classical.choice, Quot.sound)",
     "translate/cellvol.py (calculateCellVol.cpp: permutation/pqr tables, C, cprod, denom -> Gen/CellVol.lean), cross-checked bit-exactly by the correspondence (grid.vol / grid.cells)",
+    "translate/gridtops.py (EclipseGrid.cpp: which layers of the TOPS vector makeZcornDzTops reads - first layer only as found, every layer with design.d/C13.tops-gap.patch - plus shape checks of the loop nest and of createTOPSVector's tolerance logic -> Gen/GridTops.lean), cross-checked by the correspondence (gridt.deck, gridt.tops)",
     "translate/gridcopy.py (EclipseGrid.cpp: what resetACTNUM()/resetACTNUM(const int*) do with active_volume, what EclipseGrid(src, zcorn, actnum) does with m_input_zcorn, shape of activeVolume/getCellVolume/save -> Gen/GridCopy.lean), cross-checked by the correspondence (grid.seq: operation sequences on one object)",
     "harness/grid.cpp + lib/vlib.py differ; model driver (compiled Lean, IEEE double, same operation order as the C++)",
     "modelled, not verified: COORD/ZCORN generation and fixupZCORN are modelled in gather form (value of entry idx; per-line running clamp) against the scatter/push_back/in-place loops of the C++ — tied by comparing the complete arrays (and cells_adjusted) bit for bit",
     "object model (Model/GridState.lean): members active_volume, m_actnum + maps, m_coord/m_zcorn, zcorn_fixed, m_input_coord/m_input_zcorn; operations activeVolume, resetACTNUM(), resetACTNUM(mask), EclipseGrid(src, zcorn, actnum), EclipseGrid(src, actnum), save, EclipseGrid(file); MINPV state (mode, vector, setMINPVV, cellActiveAfterMINPV) is a separate record (Model/GridExt.lean) whose mask feeds resetACTNUM(mask); aquifer cells and LGRs are outside",
     "modelled, not verified (third round, Model/GridExt.lean): RADIAL grid construction, calculateCylindricalCellVol, apply_GRIDUNIT and MapAxes are hand-written models tied by bit-exact correspondence only (gridx.radial: complete COORD/ZCORN/volumes of parsed RADIAL decks incl. GRIDUNIT; gridx.gridunit; gridx.mapaxes; gridx.minpv); cos, sin, M_PI are libm/constant parameters (same libm in the compiled Lean driver and in the C++), the two std::hypot results of MapAxes::init are passed in by the harness (libm hypot is not correctly rounded, so it cannot be recomputed)",
     "observed only: independence of OMP_NUM_THREADS (1, 4, 16 compared bit for bit on the real code); Float ~ field (theorems are over a field of characteristic 0); float narrowing in EGRID files; formatted EGRID (property-mode round trip only, incl. NNC lists through EclIO::EGrid::get_nnc_ijk)",
-    "outside the model: PINCH/MINPV deactivation and pinch-out NNCs (not in opm-common; only the rule, the options and the setters are), SPIDER-specific behaviour beyond the shared arrays, LGR index maps, numerical aquifer cells, createTOPSVector tolerance logic, GDFILE input; PINCH option parsing is property-mode only",
+    "modelled, not verified (fourth round, Model/GridTops.lean): createTOPSVector in gather form (per column a recursion over the layer; the C++ is one sequential loop over targetIndex), the AQUNUM record loop (m_aquifer_cells / m_aquifer_cell_depths with insert_or_assign) and the forcing inside resetACTNUM(const int*) as a pre-pass on the mask, getCellDepth's override, getCellAndBottomCenterNormal, isValidCellGeomtry (no theorem) - hand-written, tied by bit-exact correspondence (gridt.tops: the vector itself, called directly because it is a private static member whose lower layers reach no public query; gridt.deck: COORD/ZCORN of the parsed deck; gridt.aq / gridt.aqdepth: ACTNUM, maps and depths of AQUNUM decks through resetACTNUM and both copy constructors; gridt.normal; gridt.valid); harness/grid.cpp includes EclipseGrid.hpp under '#define private public'",
+    "outside the model: PINCH/MINPV deactivation and pinch-out NNCs (not in opm-common; only the rule, the options and the setters are), SPIDER-specific behaviour beyond the shared arrays, LGR index maps, GDFILE input, getAquiferCellTabnums (PVTNUM/SATNUM of AQUNUM, used by FieldProps); PINCH option parsing is property-mode only",
 ]
 
 
 def run(ctx):
     ctx.assumptions += [
         "doubles cross the protocol as IEEE bit patterns; x86-64 without FMA contraction (volumes, centres, depths, dims compared bit for bit)",
-        "ACTNUM > 0 means active (as in resetACTNUM); no AQUNUM cells",
+        "ACTNUM > 0 means active (as in resetACTNUM); numerical-aquifer (AQUNUM) cells are forced to ACTNUM 1 by resetACTNUM(const int*) only (resetACTNUM() activates everything anyway); the object-model theorems of round 2 are stated without aquifer cells, the forcing is composed in front (Props.C13.aquifer_forcing_laws)",
+        "createTOPSVector: z_tolerance = 1e-6 (SI metres) at Float; theorems hold for every tolerance > 0 over an ordered field",
         "radial grids: INRAD >= 0, DRV >= 0, DTHETAV >= 0 with total <= 360 for the additivity / annulus theorems (the code throws above 360)",
         "nz >= 1 for DX/DY/DZ/TOPS input (the C++ indexes layer nz-1)",
     ]
-    ctx.stage_translate(["cellvol", "eclio", "gridcopy"])
+    ctx.stage_translate(["cellvol", "eclio", "gridcopy", "gridtops"])
     try:
         gen = open(os.path.join(vlib.LEAN, "OpmVerif", "Gen", "GridCopy.lean")).read()
         if "copyZInputZcorn : InputZcorn := .keep" in gen:
@@ -31,6 +34,15 @@ def run(ctx):
                              "the model follows the source (Props.C13.save_writes_current_geometry carries the side condition, copyZ_keep_breaks_save is the witness)")
     except OSError:
         pass
+    try:
+        every = ".everyLayer" in open(os.path.join(vlib.LEAN, "OpmVerif", "Gen", "GridTops.lean")).read().split("def zcornTopsLayers")[1]
+    except (OSError, IndexError):
+        every = False
+    if not every:
+      ctx.notes.append("observation (not recorded as a finding yet): makeZcornDzTops / makeCoordDxDyDzTops read only the first layer of the vector "
+                     "createTOPSVector returns, so a gap or overlap >= 1e-6 m given in TOPS between two layers never reaches the geometry "
+                     "(design.d/C13.repro_tops_gap.cpp, candidate design.d/C13.tops-gap.patch); property mode counts the affected decks/cells in "
+                     "prop_stats.json (tops.gap_ignored_decks / _cells) and reports them under key grid.tops.gap_ignored once kReportTopsGap is set in harness/grid.cpp")
     if not ctx.stage_build_opm():
         return ctx.finish(trusted_base=TRUSTED)
     ok, exe, out = vlib.build_harness("grid")
